@@ -87,11 +87,43 @@ StepField(e) ==
             /\ Check(f.id = 3 /\ d.ok /\ d.p = f.next, "alias_map_field_parses_exactly")
             /\ Check(d.ok /\ Len(e.keys) = Len(d.v)
                      /\ \A k \in 1..Len(d.v) : e.keys[k] = PoolStr(d.v[k][1]) /\ e.vals[k] = PoolStr(d.v[k][2]), "alias_map_as_in_file")
-            /\ aliases' = e.keys /\ UNCHANGED <<pool, canon>>
+            /\ aliases' = [k \in 1..Len(e.keys) |-> <<e.keys[k], e.vals[k]>>] \o <<>> /\ UNCHANGED <<pool, canon>>
+       [] e.op = "f_windows" ->
+            \* the windows-zones mapping as stored, and the two id maps the source derives from it and the alias map
+            \* (bound through a singleton set so that TLC decodes the field once, not once per reference)
+            \E d \in {DecWindowsZones(B, f.data, Len(pool))} : \E zs \in {IF d.ok THEN d.v.zones ELSE <<>>} :
+            LET Canon(x) == IF \E k \in 1..Len(aliases) : aliases[k][1] = x
+                            THEN aliases[CHOOSE k \in 1..Len(aliases) : aliases[k][1] = x][2] ELSE x
+                Primary == <<48, 48, 49>>            \* territory "001"
+                w2t == {<<PoolStr(zs[k].w), Canon(PoolStr(zs[k].ids[1]))>> : k \in {j \in 1..Len(zs) : PoolStr(zs[j].t) = Primary /\ Len(zs[j].ids) > 0}}
+            IN
+            /\ Check(f.id = 4 /\ d.ok /\ d.p = f.next, "windows_zones_field_parses_exactly")
+            /\ Check(d.ok /\ e.version = PoolStr(d.v.hdr[1]) /\ e.tzdb_version = PoolStr(d.v.hdr[2]) /\ e.windows_version = PoolStr(d.v.hdr[3]),
+                     "windows_zones_versions_as_in_file")
+            /\ Check(d.ok /\ Len(e.zones) = Len(zs)
+                     /\ \A k \in 1..Len(zs) : /\ e.zones[k][1] = PoolStr(zs[k].w) /\ e.zones[k][2] = PoolStr(zs[k].t)
+                                                /\ Len(e.zones[k][3]) = Len(zs[k].ids)
+                                                /\ \A j \in 1..Len(zs[k].ids) : e.zones[k][3][j] = PoolStr(zs[k].ids[j]),
+                     "windows_zones_as_in_file")
+            /\ Check({<<e.w2t_keys[k], e.w2t_vals[k]>> : k \in 1..Len(e.w2t_keys)} = w2t /\ Len(e.w2t_keys) = Cardinality(w2t),
+                     "windows_to_tzdb_ids_are_the_primary_mappings_made_canonical")
+            /\ UNCHANGED <<pool, canon, aliases>>
+       [] e.op = "f_locations" ->
+            \E d \in {DecLocations(B, f.data, Len(pool), e.is1970)} :
+            /\ Check(f.id = (IF e.is1970 THEN 7 ELSE 6) /\ d.ok /\ d.p = f.next, "zone_locations_field_parses_exactly")
+            /\ Check(d.ok /\ Len(e.locs) = Len(d.v)
+                     /\ \A k \in 1..Len(d.v) :
+                           /\ e.locs[k].lat = d.v[k].lat /\ e.locs[k].lon = d.v[k].lon
+                           /\ Len(e.locs[k].strs) = Len(d.v[k].strs) /\ \A j \in 1..Len(d.v[k].strs) : e.locs[k].strs[j] = PoolStr(d.v[k].strs[j])
+                           /\ (e.is1970 => /\ Len(e.locs[k].countries) = Len(d.v[k].countries)
+                                           /\ \A j \in 1..Len(d.v[k].countries) : e.locs[k].countries[j] = PoolStr(d.v[k].countries[j])),
+                     "zone_locations_as_in_file")
+            /\ Check(\A k \in 1..Len(e.locs) : e.locs[k].zone_known, "zone_locations_name_zones_of_the_file")
+            /\ UNCHANGED <<pool, canon, aliases>>
        [] e.op = "f_other" -> Check(f.id = e.id, "field_id_as_in_file") /\ UNCHANGED <<pool, canon, aliases>>
 
 StepProvider(e) ==
-  LET aliasSet == {aliases[k] : k \in 1..Len(aliases)}
+  LET aliasSet == {aliases[k][1] : k \in 1..Len(aliases)}
       idSet == {e.ids[k] : k \in 1..Len(e.ids)}
   IN
   /\ UNCHANGED <<pos, pool, canon, aliases>>
